@@ -367,7 +367,14 @@ func (g *c02DeclGen) customFunc(depth int) map[string]interface{} {
 		}
 	}
 	var cf map[string]interface{}
-	switch rapid.IntRange(0, 9).Draw(g.t, g.label("cfk")) {
+	numericJS := false
+	switch rapid.IntRange(0, 10).Draw(g.t, g.label("cfk")) {
+	case 10:
+		// a script with a numeric result, cast with `type` (float -> int truncates toward zero)
+		script := rapid.SampledFrom([]string{"-3.5", "-0.25", "2.75", "a.length / -2", "a.length * 1.5", "7", "-7", "a.length - 2.5", "0.5 - a.length"}).Draw(g.t, g.label("numjs"))
+		cf = map[string]interface{}{"name": "javascript", "args": []interface{}{map[string]interface{}{"const": script},
+			map[string]interface{}{"const": "a"}, strArg()}}
+		numericJS = true
 	case 9:
 		if rapid.Bool().Draw(g.t, g.label("ownVariadic")) {
 			args := []interface{}{typedArg("string", "p")}
@@ -399,7 +406,13 @@ func (g *c02DeclGen) customFunc(depth int) map[string]interface{} {
 				arg = inner
 			}
 		}
-		cf = map[string]interface{}{"name": rapid.SampledFrom([]string{"upper", "lower", "uuidv3"}).Draw(g.t, g.label("fn")), "args": []interface{}{arg}}
+		args := []interface{}{arg}
+		if rapid.IntRange(0, 9).Draw(g.t, g.label("surplusArg")) == 0 {
+			// one argument too many for a one-parameter function (the schema is accepted; every record fails, whether or
+			// not the surplus argument has a value)
+			args = append(args, rapid.SampledFrom([]interface{}{map[string]interface{}{"xpath": "nosuch"}, map[string]interface{}{"const": "x"}}).Draw(g.t, g.label("surplus")))
+		}
+		cf = map[string]interface{}{"name": rapid.SampledFrom([]string{"upper", "lower", "uuidv3"}).Draw(g.t, g.label("fn")), "args": args}
 	case 4:
 		cf = map[string]interface{}{"name": "dateTimeToEpoch", "args": []interface{}{strArg(), map[string]interface{}{"const": ""}, map[string]interface{}{"const": "SECOND"}}}
 	case 5:
@@ -416,6 +429,9 @@ func (g *c02DeclGen) customFunc(depth int) map[string]interface{} {
 	g.anchor(d, 5)
 	name := cf["name"]
 	g.flags(d, name != "copy" && name != "javascript", true)
+	if numericJS && rapid.IntRange(0, 3).Draw(g.t, g.label("numcast")) > 0 {
+		d["type"] = rapid.SampledFrom([]string{"int", "int", "float", "string", "boolean"}).Draw(g.t, g.label("numtype"))
+	}
 	return d
 }
 
